@@ -456,4 +456,85 @@ def accepted (E : Env T) : Except Rej (List (Enq T)) → Bool
 def acceptTxn (E : Env T) (P : Params) (gi : Nat) (grp : List (STxn T)) (acctAuth : T.Addr) (s : STxn T) : Bool :=
   accepted E (txnBatchPrep E P gi grp s) && evalAuthCheck E acctAuth s
 
+/-! ### data/transactions/verify/verifiedTxnCache.go — the verified-transaction cache -/
+
+/-- the fields of a SignedTxn other than the transaction body (which the txid, the cache key, covers) -/
+inductive Field where
+  | sig | msig | lsig | pqsig | authAddr
+deriving DecidableEq, Repr
+
+/-- the equality tests the cache lookup uses (`==`, MultisigSig.Equal, LogicSig.Equal, PQSig.Equal, Txid equality) -/
+structure FieldEq (T : Types) where
+  txid : T.Txn → T.Txn → Bool
+  sig : T.Sig → T.Sig → Bool
+  msig : MSig T → MSig T → Bool
+  lsig : LSig T → LSig T → Bool
+  pqsig : PQSig T → PQSig T → Bool
+  addr : T.Addr → T.Addr → Bool
+
+def sameField (Q : FieldEq T) (a b : STxn T) : Field → Bool
+  | .sig => Q.sig a.sig b.sig
+  | .msig => Q.msig a.msig b.msig
+  | .lsig => Q.lsig a.lsig b.lsig
+  | .pqsig => Q.pqsig a.pqsig b.pqsig
+  | .authAddr => Q.addr a.authAddr b.authAddr
+
+/-- the comparison of a presented SignedTxn with the cached one; `fields` = the fields the Go code compares
+    (extracted from the current source into Gen/AuthzCacheKey.lean on every run) -/
+def sameMaterial (Q : FieldEq T) (fields : List Field) (cached presented : STxn T) : Bool :=
+  fields.all (sameField Q cached presented)
+
+/-- a cached GroupContext: the verification context (special addresses + consensus version) and the verified group -/
+structure CacheEntry (T : Types) (C : Type) where
+  ctx : C
+  grp : List (STxn T)
+
+/-- the entry found for a txid: the most recently added group that contains it (a later Add overrides; bucket rotation
+    and pinning are not modelled) -/
+def findEntry {C : Type} (Q : FieldEq T) (cache : List (CacheEntry T C)) (t : T.Txn) : Option (CacheEntry T C) :=
+  cache.find? fun e => e.grp.any fun s => Q.txid s.txn t
+
+/-- the member loop of GetUnverifiedTransactionGroups: `some true` = every member from index `i` on is cached,
+    `none` = Go indexes the cached group out of range (panic) -/
+def membersCached {C : Type} (Q : FieldEq T) (fields : List Field) (ctxEq : C → C → Bool) (cache : List (CacheEntry T C)) (ctx : C) :
+    Nat → List (STxn T) → Option Bool
+  | _, [] => some true
+  | i, s :: rest =>
+    match findEntry Q cache s.txn with
+    | none => some false
+    | some e =>
+      if !ctxEq e.ctx ctx then some false
+      else match e.grp[i]? with
+        | none => none
+        | some c => if sameMaterial Q fields c s then membersCached Q fields ctxEq cache ctx (i + 1) rest else some false
+
+/-- a group is filtered out as already verified: all members cached and at least one member -/
+def cacheHit {C : Type} (Q : FieldEq T) (fields : List Field) (ctxEq : C → C → Bool) (cache : List (CacheEntry T C)) (ctx : C)
+    (grp : List (STxn T)) : Option Bool :=
+  match grp with
+  | [] => some false
+  | _ :: _ => membersCached Q fields ctxEq cache ctx 0 grp
+
+inductive ViaRes where
+  | hit                    -- filtered out by the cache: not verified again
+  | miss (r : Res)         -- verified by PaysetGroups
+  | panicked
+deriving DecidableEq, Repr
+
+/-- verify.TxnGroup with a cache: a verified group is added -/
+def verifyAdd {C : Type} (E : Env T) (P : Params) (cache : List (CacheEntry T C)) (ctx : C) (grp : List (STxn T)) :
+    Res × List (CacheEntry T C) :=
+  let r := verifyGroup E P grp
+  (r, if r = .ok then ⟨ctx, grp⟩ :: cache else cache)
+
+/-- block validation: GetUnverifiedTransactionGroups, then PaysetGroups on what is left (which adds what it verified) -/
+def verifyVia {C : Type} (E : Env T) (P : Params) (Q : FieldEq T) (fields : List Field) (ctxEq : C → C → Bool)
+    (cache : List (CacheEntry T C)) (ctx : C) (grp : List (STxn T)) : ViaRes × List (CacheEntry T C) :=
+  match cacheHit Q fields ctxEq cache ctx grp with
+  | none => (.panicked, cache)
+  | some true => (.hit, cache)
+  | some false =>
+    let (r, cache') := verifyAdd E P cache ctx grp
+    (.miss r, cache')
+
 end AlgoVerif.Model.Authz
